@@ -8,7 +8,7 @@ import zlib
 from . import mserver, proto
 
 CLASSES = ["arbitrary", "truncate", "rdlen_lie", "huge_rdata", "many_records", "bad_prefs", "txt_chunks", "name_tricks",
-           "codec_letters", "empty", "boundary_payload", "step_payload", "counts_lie", "wrong_type", "rcode", "zlib", "raw", "frag_flood"]
+           "codec_letters", "empty", "boundary_payload", "step_payload", "counts_lie", "wrong_type", "rcode", "zlib", "raw", "frag_flood", "compressed_many"]
 
 
 def rb(rng, n):
@@ -226,6 +226,30 @@ def gen(rng, q, cls, step, ctx):
             if len(d) <= 65000 or n < 2000:
                 return d
             n = n * 3 // 4
+    if cls == "compressed_many":
+        # a small datagram that decodes to a lot: many MX/SRV/CNAME records whose names are one short label plus a
+        # compression pointer into a shared ~190..250-character chain (in the first record or in the question)
+        t = qt if qt in (proto.T_MX, proto.T_SRV, proto.T_CNAME) else rng.choice([proto.T_MX, proto.T_SRV])
+        letter = rng.choice([b"h", b"i", b"j", b"k"])
+        alpha = proto.B128 if letter == b"k" else proto.B32
+
+        def pre(i):
+            return {proto.T_CNAME: b"", proto.T_MX: struct.pack(">H", 10 * (i + 1)), proto.T_SRV: struct.pack(">HHH", 10 * (i + 1), 0, 5060)}[t]
+        qn = proto.encode_name(labels)
+        nlab = rng.choice([3, 3, 4])
+        chain = b"".join(bytes([len(c)]) + c for c in [bytes(rng.choice(alpha) for _ in range(rng.choice([57, 60, 63]))) for _ in range(nlab)]) + b"\x02xy\x00"
+        first_lab = letter + bytes(rng.choice(alpha) for _ in range(rng.choice([1, 3, 7])))
+        off_chain = 12 + len(qn) + 4 + 2 + 10 + len(pre(0)) + 1 + len(first_lab)      # where the shared chain starts
+        rrs = [rr(PTR, t, pre(0) + bytes([len(first_lab)]) + first_lab + chain)]
+        use_q = rng.random() < 0.25            # point into the question name instead
+        n = rng.choice([5, 17, 18, 20, 30, 60, 120, 200, 249, 250])
+        for i in range(1, n):
+            lab = letter + bytes(rng.choice(alpha) for _ in range(rng.choice([1, 3, 7, 40])))
+            tgt = bytes([len(lab)]) + lab + (PTR if use_q else struct.pack(">H", 0xC000 | off_chain))
+            rrs.append(rr(PTR, t, pre(i) + tgt))
+            if sum(len(x) for x in rrs) > rng.choice([3900, 3900, 8000, 60000]):
+                break
+        return answer(q, rrs, qtype=t if t != qt and rng.random() < 0.5 else None)
     if cls == "raw":
         cmd = rng.choice([0x10, 0x20, 0x30, 0x00, 0x40, 0xF0])
         n = rng.choice([0, 1, 2, 12, 15, 16, 17, 100, 1200, 4096, 9000, 65000])
